@@ -127,8 +127,12 @@ static void do_call(Session& s, const CallSpec& c, CallResult& r, std::string& p
         f = open_sim_FILE(c.bytes, c.sched);
     } else if (c.entry == E_WRITE) {
         set_next_write_sched(c.sched);
-        uri = "sim://" + c.bytes;
-        sink_reset(c.bytes);
+        if (!c.bytes.empty() && c.bytes[0] == '/')
+            uri = c.bytes;  // family realfile: a real path (libxml2's own file output, no seam)
+        else {
+            uri = "sim://" + c.bytes;
+            sink_reset(c.bytes);
+        }
     }
     ParserBuilder* pb = (c.backend == B_DOC && load) || c.entry == E_WRITE ? nullptr : make_builder();
     errno = c.errno_before;
